@@ -156,6 +156,42 @@ class HalfOverfitRecorder(OverfitRecorder):
         return np.where(seen | ~flip, raw, -raw)
 
 
+class CoarseRecorder(_Base):
+    """Trains, but returns coarse tied scores: every row above the 28th percentile of the scored batch gets 1, the
+    rest 0.  The top tie group then holds all high targets plus some decoys, so it is accepted at a lenient FDR and
+    rejected at a strict one."""
+
+    def _score(self, X, phase):
+        raw = self._raw(X)
+        return np.where(raw > np.percentile(raw, 28), 0.9, 0.1)
+
+    def predict_proba(self, X):  # probabilities only: brew does not calibrate them
+        p = self._logged_score(X)
+        return np.column_stack([1 - p, p])
+
+
+# Hyper-parameter search wrapper: Model.fit hands it the (shuffled) rows and labels once, before the training loop,
+# and then continues with the *inner* estimator - so what the search received is logged at module level.
+SEARCH_LOG = []
+
+
+def _const_score(est, X, y):
+    return float(len(y))
+
+
+def make_search(inner):
+    from sklearn.model_selection import GridSearchCV
+
+    class RecordingSearch(GridSearchCV):
+        def fit(self, X, y=None, **kw):
+            Xa = np.asarray(X, dtype=float)
+            SEARCH_LOG.append(("search-fit", tuple(Xa[:, 0].tolist()), tuple(int(v) for v in y)))
+            return super().fit(X, y, **kw)
+
+    RecordingSearch.__name__ = "GridSearchCV"  # sklearn's clone/get_params use the signature of __init__ only
+    return RecordingSearch(inner, param_grid={"tag": ["a", "b"]}, cv=2, refit=False, scoring=_const_score)
+
+
 ESTIMATORS = {
     "linear": LinearRecorder,
     "proba": ProbaRecorder,
@@ -164,6 +200,7 @@ ESTIMATORS = {
     "inverted": InvertedRecorder,
     "overfit": OverfitRecorder,
     "halfoverfit": HalfOverfitRecorder,
+    "coarse": CoarseRecorder,
 }
 
 
@@ -172,6 +209,8 @@ def make_model(kind="linear", first_only=False, **kw):
 
     kw.setdefault("train_fdr", 0.5)
     kw.setdefault("max_iter", 3)
+    if kind.startswith("grid:"):  # e.g. "grid:linear": the recorder wrapped in a hyper-parameter search
+        return Model(make_search(ESTIMATORS[kind[5:]](first_only=first_only)), scaler="as-is", **kw)
     return Model(ESTIMATORS[kind](first_only=first_only), scaler="as-is", **kw)
 
 
